@@ -238,4 +238,4 @@ def step_case(step) -> str:
     return (f"({RULE_OF[pat]}, {tbl_coq(tb)}, {accir._nl(fr)}, {_n(target)}, {to_coq(before)}, {to_coq(after)})")
 
 
-HEADER_D = "From Snax Require Import Base.Prelude Model.AccIR Model.AccSem Model.AccInfer Model.AccDedup Model.AccWeave.\n"
+HEADER_D = "From Snax Require Import Base.Prelude Model.AccIR Model.AccSem Model.AccInfer Model.AccDedup Model.AccWeave Model.AccRules.\n"
